@@ -1,6 +1,6 @@
 (* Properties_C01.v — the theorems that decide property C01 on the model, each stated in full and closed by
    `exact <lemma>`; the lemmas live in the Proofs_*.v files.  Nothing else belongs in this file. *)
-From Theo Require Import Base Tokens Errors MacroExtract Parser VMModel VMSpec VMStatements GenModel Compile RefSem SemStatements Proofs_Sem C01Statements C01Stages RefSemChk Proofs_C01s2a Proofs_C01s2 C01Stages3 Proofs_C01s3 C01Stages4 Regex Lexer Scan Grammar LR MacroApply Gen_Lexer Proofs_C01s4q Proofs_C01s4 Proofs_C01s4w NamesStatements Proofs_Names Proofs_C01source.
+From Theo Require Import Base Tokens Errors MacroExtract Parser VMModel VMSpec VMStatements GenModel Compile RefSem SemStatements Proofs_Sem C01Statements C01Stages RefSemChk Proofs_C01s2a Proofs_C01s2 C01Stages3 Proofs_C01s3 C01Stages4 Regex Lexer Scan Grammar LR MacroApply Gen_Lexer Proofs_C01s4q Proofs_C01s4 Proofs_C01s4w NamesStatements Proofs_Names Proofs_C01source Stage6Statements Proofs_Stage6 Proofs_Stage6w.
 Local Open Scope Z_scope.
 
 
@@ -165,3 +165,44 @@ Theorem C01_source :
     (forall n s, run_ref_chk n rs = OFuel -> vm_run n (init (cr_prog c)) = Ok s -> isDone s = Ok false).
 Proof. exact C01_source_proof. Qed.
 Print Assumptions C01_source.
+
+Theorem C01_anylayout :
+  forall root r rs fuel rviews steps trace,
+    shape4 root = true -> headers_ok root = true -> lexable_names root = true ->
+    gen true [] (Some root) = Ok r -> gr_ok r = true ->
+    abstract_source (Some root) = Some rs ->
+    run_ref_chk fuel rs = OStop rviews steps trace ->
+    sim_conclusion r rviews steps.
+Proof. exact C01_anylayout_proof. Qed.
+Print Assumptions C01_anylayout.
+
+Theorem C01_anylayout_budget :
+  forall root r rs n s,
+    shape4 root = true -> headers_ok root = true -> lexable_names root = true ->
+    runs_on_line root = true ->
+    gen true [] (Some root) = Ok r -> gr_ok r = true ->
+    abstract_source (Some root) = Some rs ->
+    run_ref_chk n rs = OFuel ->
+    vm_run n (init (gr_prog r)) = Ok s -> isDone s = Ok false.
+Proof. exact C01_anylayout_budget_proof. Qed.
+Print Assumptions C01_anylayout_budget.
+
+Theorem C01_every_source :
+  forall files main c p root rs,
+    Forall (fun kv => lexable (fst kv) = true) files ->
+    compile files main = Ok c -> cr_ok c = true ->
+    parse files main = Ok p -> pr_root p = Some root ->
+    abstract_source (Some root) = Some rs ->
+    (forall fuel rviews steps trace, run_ref_chk fuel rs = OStop rviews steps trace ->
+       exists k s vmviews,
+         vm_run k (init (cr_prog c)) = Ok s /\ isDone s = Ok true /\
+         views s = Ok vmviews /\ Forall2 view_agrees vmviews rviews /\ (steps <= k)%nat) /\
+    (runs_on_line root = true ->
+     forall n s, run_ref_chk n rs = OFuel -> vm_run n (init (cr_prog c)) = Ok s -> isDone s = Ok false).
+Proof. exact C01_every_source_proof. Qed.
+Print Assumptions C01_every_source.
+
+Theorem C01_budget_needs_layout :
+  ~ C01_anylayout_budget_unguarded_stmt /\ ~ C01_every_source_unguarded_stmt.
+Proof. exact C01_budget_needs_layout_proof. Qed.
+Print Assumptions C01_budget_needs_layout.
